@@ -12,7 +12,7 @@ from vlib.stubs import fakefs  # noqa: E402
 
 REAL_OS, REAL_SHUTIL = prep.os, prep.shutil
 
-WS_COMPS = ["in", "ws", "lian_workspace", "xlian_workspacey", "..", "."]
+WS_COMPS = ["in", "ws", "lian_workspace", "xlian_workspacey", "..", ".", "wsl"]      # wsl: a link into the input directory `in`
 IN_PATHS = ["in", "ws", "lian_workspace", ".", "..", "f.py", "in/sub", "ws/lian_workspace"]
 ABSENT = 9
 
@@ -76,6 +76,8 @@ def base_tree(fs, cfg, final_ws):
         fs.add_link(f"{base}/in/link", f"{base}/other")
     fs.add_file(f"{base}/ws/w.py", "W")
     fs.add_file(f"{base}/f.py", "F")
+    fs.add_dir(f"{base}/in/build")
+    fs.add_link(f"{base}/wsl", f"{base}/in/build")          # the workspace may be named through a link into an input
     fs.add_file("/outside/o.py", "O")
     if cfg["stale"] == 2:
         fs.add_file("/outside/keep/k.txt", "K")
